@@ -549,6 +549,9 @@ func hasDynamicIndex(e string) bool {
 
 // BoundCase applies the bound to an expression and to the input it runs on:
 // with a dynamic index, numbers of the document can become indices too.
+// an assignment operator (plain, update or compound), not a comparison
+var assignOp = regexp.MustCompile(`(^|[^=!<>])(\|=|[-+*/]=|=)([^=]|$)`)
+
 var recAssign = regexp.MustCompile(`\.\.\.?\s*[-+*/]?=([^=]|$)`)
 
 // boundRepeat: `string * n` repeats the string, and two such steps in a row (`"a" * 65536 | length * @tsv`) ask
@@ -567,6 +570,17 @@ func BoundCase(e, input string) (string, string) {
 	// (3 keys: 64 GB), not a crash site. The descent is replaced by a plain path.
 	if recAssign.MatchString(e) {
 		e = strings.ReplaceAll(strings.ReplaceAll(e, "...", ".a"), "..", ".a")
+	}
+	// the same through nesting: the value of an assignment is the whole context again, so `.* = .* = .` (or
+	// `.[] = (.[] = .)`) hands every match a copy of a document that the inner assignment has just grown, once
+	// per match, re-read after every write (the open C02 finding): exponential as well. With two or more
+	// assignments in one expression the targets that match many nodes are replaced by single paths.
+	if len(assignOp.FindAllString(e, -1)) >= 2 {
+		e = strings.ReplaceAll(e, "...", ".a")
+		e = strings.ReplaceAll(e, "..", ".a")
+		e = strings.ReplaceAll(e, "[]", "[0]")
+		e = strings.ReplaceAll(e, ".*", ".a")
+		e = strings.ReplaceAll(e, `"*"`, `"a"`)
 	}
 	if !hasDynamicIndex(e) {
 		return e, input
